@@ -218,7 +218,7 @@ class Module(Base):
         self.t.init(sim=self.sim) # Sets the absolute sim time vector
 
         # Find all time parameters in the module
-        timepars = sc.search(self.pars, type=ss.TimePar) # Should it be self or self.pars?
+        timepars = sc.search(self, type=ss.TimePar, skip=dict(keys=['sim', 'module', 'people'])) # This module's own time parameters: do not follow links back to the sim and on to other modules
 
         # Initialize them with the parent module
         for timepar in timepars.values():
